@@ -59,14 +59,38 @@ let dump_rule (r : rule) : string =
 let conns (l : n list) : string = if l = [] then "-" else String.concat "," (List.map (fun c -> string_of_int (int_of_n c)) l)
 
 let world = ref { w_mm = []; w_names = [] }
+let sworld = ref { sw_bus = []; sw_names = [] }
 let limit = ref (n_of_int 512)
 
 let reply_s = function RepOk -> "ok" | RepLimits -> "limits" | RepInvalid -> "invalid" | RepDenied -> "denied" | RepOkThenNotFound -> "oknotfound"
+let sreply_s = function SRepOk -> "ok" | SRepLimits -> "limits" | SRepInvalid -> "invalid" | SRepDenied -> "denied" | SRepNotFound -> "notfound"
+
+let s_sender = bytes_of_hex "73656e646572" and s_destination = bytes_of_hex "64657374696e6174696f6e"
+and s_arg0namespace = bytes_of_hex "617267306e616d657370616365"
+
+(* classes of rule texts on which the code is known to deviate from the specification (Spec.MatchSpec section 7) *)
+let classes (text : n list) : string =
+  let (ts, e) = spec_tokens text in
+  let l = [] in
+  let l = if e = SEmptyKey then "ek" :: l else l in
+  let l = if List.length ts > 16 then "cap" :: l else l in
+  let l = if bs_sensitive SItemStart text then "bs" :: l else l in
+  let l = if List.exists (fun (k, _) -> not (plain_arg_key k)) ts then "odd" :: l else l in
+  let l = if List.exists (fun (k, v) -> (k = s_sender || k = s_destination || k = s_arg0namespace) && f2_value v) ts then "f2" :: l else l in
+  if l = [] then "-" else String.concat "," (List.rev l)
 
 let do_step (e : event) : string =
-  match step !limit !world e with
-  | None -> "F"
-  | Some (w, o) ->
+  let (sw, so) = spec_step !limit !sworld e in
+  sworld := sw;
+  let sp = match so with
+    | SOSignal l -> "S " ^ conns l
+    | SOReply r -> "R " ^ sreply_s r
+    | SODelivered l -> "D " ^ conns l
+    | SOSignals l -> "G " ^ (if l = [] then "-" else String.concat ";" (List.map (fun (n, rc) -> hex_of_bytes n ^ ":" ^ conns rc) l)) in
+  let cl = match e with EvAdd (_, t) | EvRemove (_, t) -> " " ^ classes t | _ -> "" in
+  (match step !limit !world e with
+   | None -> "F"
+   | Some (w, o) ->
       world := w;
       (match o with
        | OSignal l -> "S " ^ conns l
@@ -75,27 +99,51 @@ let do_step (e : event) : string =
        | ORouting RNoOwner -> "U"
        | ORouting RToDriver -> "V"
        | ORouting (RDelivered l) -> "D " ^ conns l
-       | OSignals l -> "G " ^ (if l = [] then "-" else String.concat ";" (List.map (fun (n, rc) -> hex_of_bytes n ^ ":" ^ conns rc) l)))
+       | OSignals l -> "G " ^ (if l = [] then "-" else String.concat ";" (List.map (fun (n, rc) -> hex_of_bytes n ^ ":" ^ conns rc) l))))
+  ^ " | " ^ sp ^ cl
 
 let handlers : (string, string list -> string) Hashtbl.t = Hashtbl.create 64
 let reg name f = Hashtbl.replace handlers name f
 
+let one = n_of_int 1
+
 let () =
-  reg "parse" (fun [h] -> match parse_rule (n_of_int 1) (bytes_of_hex h) with
-      | PLimits -> "L" | PInvalid -> "I" | POk r -> "O " ^ dump_rule r);
-  reg "match" (fun (h :: mf) -> match parse_rule (n_of_int 1) (bytes_of_hex h) with
-      | PLimits -> "L" | PInvalid -> "I"
-      | POk r -> (match rule_matches [] r None None (msg_of mf) false with None -> "F" | Some true -> "1" | Some false -> "0"));
-  reg "equal" (fun [a; b] -> match parse_rule (n_of_int 1) (bytes_of_hex a), parse_rule (n_of_int 1) (bytes_of_hex b) with
-      | POk x, POk y -> if rule_equal x y then "1" else "0"
-      | _, _ -> "X");
+  reg "parse" (fun [h] ->
+      let text = bytes_of_hex h in
+      let m = parse_rule one text and s = spec_parse one text in
+      let ms = (match m with PLimits -> "L" | PInvalid -> "I" | POk r -> "O " ^ dump_rule r) in
+      let ss, agree = (match m, s with
+          | PLimits, SPLimits -> "L", true | PInvalid, SPInvalid -> "I", true
+          | POk r, SPOk sr -> "O", srule_eqb (abs_rule r) sr
+          | _, SPLimits -> "L", false | _, SPInvalid -> "I", false | _, SPOk _ -> "O", false) in
+      Printf.sprintf "%s | %s %d %s" ms ss (if agree then 1 else 0) (classes text));
+  reg "match" (fun (h :: mf) ->
+      let text = bytes_of_hex h in
+      let msg = msg_of mf in
+      let ms = (match parse_rule one text with
+          | PLimits -> "L" | PInvalid -> "I"
+          | POk r -> (match rule_matches [] r None None msg false with None -> "F" | Some true -> "1" | Some false -> "0")) in
+      let ss = (match spec_parse one text with
+          | SPLimits -> "L" | SPInvalid -> "I"
+          | SPOk sr -> if spec_matches [] sr None None msg then "1" else "0") in
+      Printf.sprintf "%s | %s %s" ms ss (classes text));
+  reg "equal" (fun [a; b] ->
+      let ta = bytes_of_hex a and tb = bytes_of_hex b in
+      let ms = (match parse_rule one ta, parse_rule one tb with
+          | POk x, POk y -> if rule_equal x y then "1" else "0"
+          | _, _ -> "X") in
+      let ss = (match spec_parse one ta, spec_parse one tb with
+          | SPOk x, SPOk y -> if srule_eqb x y then "1" else "0"
+          | _, _ -> "X") in
+      let ca = classes ta and cb = classes tb in
+      Printf.sprintf "%s | %s %s" ms ss (if ca = "-" then cb else if cb = "-" then ca else ca ^ "," ^ cb));
   reg "uint" (fun [h] -> match parse_uint (bytes_of_hex h) with
       | None -> "-" | Some (v, e) -> string_of_n v ^ " " ^ string_of_int (int_of_n e));
-  reg "reset" (fun [l] -> world := { w_mm = []; w_names = [] }; limit := n_of_int (int_of_string l); "ok");
+  reg "reset" (fun [l] -> world := { w_mm = []; w_names = [] }; sworld := { sw_bus = []; sw_names = [] };
+                limit := n_of_int (int_of_string l); "ok");
   reg "hello" (fun [c; u] -> do_step (EvHello (n_of_int (int_of_string c), bytes_of_hex u)));
   reg "own" (fun [c; u] -> do_step (EvOwn (n_of_int (int_of_string c), bytes_of_hex u)));
   reg "add" (fun [c; t] -> do_step (EvAdd (n_of_int (int_of_string c), bytes_of_hex t)));
   reg "rm" (fun [c; t] -> do_step (EvRemove (n_of_int (int_of_string c), bytes_of_hex t)));
   reg "send" (fun (c :: mf) -> do_step (EvSend (n_of_int (int_of_string c), msg_of mf)));
-  reg "disc" (fun [c] -> do_step (EvDisconnect (n_of_int (int_of_string c))));
-  reg "nrules" (fun [c] -> string_of_int (List.length (List.filter (fun r -> int_of_n r.r_owner = int_of_string c) !world.w_mm)))
+  reg "disc" (fun [c] -> do_step (EvDisconnect (n_of_int (int_of_string c))))
